@@ -232,7 +232,12 @@ def run_C03(run):
     # (2a) a positional child step continued by a step on every axis, by '//', by another positional step
     run.gen_and_replay("MC_Expr", consts(ec, Family="C03cont", MaxNodes=1 if q else 5, CatIds={3, 5, 7} if q else ALL_CAT), name="pos-then-steps", kind="sel-set")
     # (2b) XQueryVM2 on numeric predicates (position counters, positmap, merge rewrite, (path)[n] re-rooting)
-    vm2_stage(run, {2, 3, 4}, "C03")
+    vm2_stage(run, {2, 3, 4, 5}, "C03")
+    for dev in ("pos-ignores-test", "child-posit-not-reset"):
+        r = run.tlc("MC_VM2", consts(VM2_BASE, Deviations={dev}, Parts={2, 5}, HostAxes={"child"}), invariants=("VM2Refines",),
+                    name="vm2-deviation-" + dev, out=False, allow_violation=True)
+        if "Invariant VM2Refines is violated" not in r["log"]:
+            raise ToolingError("XQueryVM2 does not refute the re-introduced defect %s: vacuous model" % dev)
     # (3) (flat path)[n] and (//name)[n]
     run.gen_and_replay("MC_Expr", consts(ec, Family="C03paren"), name="paren-nth", kind="sel-set")
 
